@@ -672,7 +672,7 @@ void oasis_write_real(OasisStream& out, double value) {
     }
 
     double inverse = 1.0 / value;
-    if (trunc(inverse) == inverse && fabs(inverse) < (double)UINT64_MAX) {
+    if (trunc(inverse) == inverse && fabs(inverse) < (double)UINT64_MAX && 1.0 / inverse == value) {
         // inverse is integer
         if (inverse >= 0) {
             oasis_putc((uint8_t)OasisDataType::RealPositiveReciprocal, out);
